@@ -27,33 +27,37 @@ type Clause struct {
 	Binder []Param  // invariant: named locals; lemma: universally quantified variables
 	Line   int
 	N      int // ordinal among clauses of its kind
+	// proof hint `cases k lo hi` on an ensures clause of the form `forall k T :: body`:
+	// the obligation is proved by the exhaustive case split k==lo, ..., k==hi-1, k outside [lo,hi)
+	CaseVar        string
+	CaseLo, CaseHi int
 }
 
 type Param struct{ Name, Type string }
 
 // Contract is the contract block of one function (or interface method, or lemma).
 type Contract struct {
-	Pkg       string // package directory key ("ion", "cmd/ion-go")
-	FuncID    string // "appendVarUint", "(*bitstream).Next", "Reader.IntValue"
-	Iface     bool
-	Lemma     bool
-	Trusted   bool
-	Inline    bool
-	Safe      []string       // property ids for which safety obligations are generated
-	SafeSet   bool           // a //@ safe line is present
-	Unroll    map[int]int    // loop ordinal -> bound
-	Requires  []*Clause
-	Ensures   []*Clause
-	Invariant map[int][]*Clause
-	Modifies  []string // location expressions (Go text)
-	ModSet    bool     // a modifies clause is present (possibly empty = modifies nothing)
-	Line      int
-	File      string
-	Notes     []string
-	Assumes   []string // free-text assumptions echoed in evidence
-	ModelOf   string   // model: full name of the library function
+	Pkg         string // package directory key ("ion", "cmd/ion-go")
+	FuncID      string // "appendVarUint", "(*bitstream).Next", "Reader.IntValue"
+	Iface       bool
+	Lemma       bool
+	Trusted     bool
+	Inline      bool
+	Safe        []string    // property ids for which safety obligations are generated
+	SafeSet     bool        // a //@ safe line is present
+	Unroll      map[int]int // loop ordinal -> bound
+	Requires    []*Clause
+	Ensures     []*Clause
+	Invariant   map[int][]*Clause
+	Modifies    []string // location expressions (Go text)
+	ModSet      bool     // a modifies clause is present (possibly empty = modifies nothing)
+	Line        int
+	File        string
+	Notes       []string
+	Assumes     []string // free-text assumptions echoed in evidence
+	ModelOf     string   // model: full name of the library function
 	InlineCalls []string // callees whose body (not contract) is used inside this function
-	ModelFn   string   // model: spec-file function that replaces it
+	ModelFn     string   // model: spec-file function that replaces it
 
 	// signature (filled from the AST)
 	Recv    *Param
@@ -168,6 +172,20 @@ func ParseContractFile(pkgKey, path string) ([]*Contract, error) {
 			cur.Requires = append(cur.Requires, &Clause{Kind: "requires", Props: props, Text: rest, Line: it.line, N: len(cur.Requires)})
 		case "ensures":
 			cur.Ensures = append(cur.Ensures, &Clause{Kind: "ensures", Props: props, Text: rest, Line: it.line, N: len(cur.Ensures)})
+		case "cases":
+			var v string
+			var lo, hi int
+			if _, err := fmt.Sscanf(rest, "%s %d %d", &v, &lo, &hi); err != nil || lo < 0 || hi <= lo || hi-lo > 64 {
+				return nil, fmt.Errorf("%s:%d: cases <bound variable> <lo> <hi>", path, it.line)
+			}
+			if len(cur.Ensures) == 0 {
+				return nil, fmt.Errorf("%s:%d: cases must follow an ensures clause", path, it.line)
+			}
+			last := cur.Ensures[len(cur.Ensures)-1]
+			if !strings.HasPrefix(last.Text, "forall "+v+" ") {
+				return nil, fmt.Errorf("%s:%d: cases %s: the preceding ensures clause is not of the form `forall %s T :: ...`", path, it.line, v, v)
+			}
+			last.CaseVar, last.CaseLo, last.CaseHi = v, lo, hi
 		case "invariant":
 			var k int
 			sp := strings.SplitN(rest, " ", 2)
@@ -509,8 +527,8 @@ func rewriteOld(expr string, params map[string]bool) (string, error) {
 // sigIndex collects the signatures of all functions, methods and interface methods of
 // a package directory from its syntax (no type checking needed).
 type sigIndex struct {
-	funcs   map[string]*ast.FuncDecl  // FuncID -> decl
-	ifaces  map[string]*ast.FuncType  // "Iface.Method" -> type
+	funcs   map[string]*ast.FuncDecl // FuncID -> decl
+	ifaces  map[string]*ast.FuncType // "Iface.Method" -> type
 	fset    *token.FileSet
 	pkgName string
 	imports map[string]map[string]string // file -> import name -> path (unused for now)
